@@ -59,6 +59,8 @@ static int hio_mode(const char *tmp)
 	return 0;
 }
 
+static const char *preload_path;	/* entries QP / QM / QF / QC: the same load into a context that already holds this module */
+
 static int load_mode(void)
 {
 	static char line[8192];
@@ -73,6 +75,7 @@ static int load_mode(void)
 		c = xmp_create_context();
 		if (e[1] == 'M') buf = vf_read_file(path, &sz);
 		if (e[1] == 'F' || e[1] == 'C') f = fopen(path, "rb");
+		if (e[0] == 'Q') { if (!preload_path || xmp_load_module(c, (char *)preload_path) < 0) { puts("RET ?"); xmp_free_context(c); continue; } e[0] = 'L'; }
 		if (!strcmp(e, "LP")) ret = xmp_load_module(c, path);
 		else if (!strcmp(e, "LM")) ret = xmp_load_module_from_memory(c, buf, sz);
 		else if (!strcmp(e, "LF")) ret = xmp_load_module_from_file(c, f, 0);
@@ -110,6 +113,6 @@ static int load_mode(void)
 int main(int argc, char **argv)
 {
 	if (argc >= 3 && !strcmp(argv[1], "hio")) return hio_mode(argv[2]);
-	if (argc >= 2 && !strcmp(argv[1], "load")) return load_mode();
+	if (argc >= 2 && !strcmp(argv[1], "load")) { if (argc >= 3) preload_path = argv[2]; return load_mode(); }
 	return 2;
 }
